@@ -98,17 +98,23 @@ h("c10_fixed_size_stateless", ["C10"], "quick", "size 1..6, buffer <= 6 symbolic
 # ---------------------------------------------------------------------------
 # C09 chunker rule
 # ---------------------------------------------------------------------------
-h("c09_rule_first_chunk_rollsum", ["C09"], "quick",
+h("c09_rule_first_chunk_rollsum_small", ["C09"], "quick",
+  "6 symbolic bytes, len 0..6; window 1..2, min<=max<=5, window<=max, filter bits 1..2: all symbolic",
+  "as c09_rule_first_chunk_rollsum at the smaller bound (quick tier)", RHC + RS)
+h("c09_rule_mid_chunk_rollsum_small", ["C09", "C10"], "quick",
+  "6 symbolic bytes + 2 previous bytes; scan offset o symbolic; window 1..2, max<=5, bits 1..2: all symbolic",
+  "as c09_rule_mid_chunk_rollsum at the smaller bound (quick tier)", RHC + RS)
+h("c09_rule_first_chunk_rollsum", ["C09"], "thorough",
   "8 symbolic bytes, len 0..8; window 1..3, min<=max<=6, window<=max, filter bits 1..3: all symbolic",
-  "next() on a fresh RollSum chunker == the independent rule (least e >= max(min,1) with closed-form hash of the trailing window matching the mask, else max, else None); chunk bytes, rest of buffer, offset reset",
+  "next() on a fresh RollSum chunker == the independent rule (least e >= max(min,1) with closed-form hash of the trailing window matching the mask, else max, else None); chunk bytes, rest of buffer, offset reset; POST-STATE: offset == len after None, hasher window == a reference fed exactly the hashed bytes once",
   RHC + RS)
 h("c09_rule_first_chunk_rollsum_big", ["C09"], "thorough",
   "10 symbolic bytes; window 1..4, max <= 8, bits 1..4: all symbolic", "as c09_rule_first_chunk_rollsum at the larger bound", RHC + RS)
-h("c09_rule_mid_chunk_rollsum", ["C09", "C10"], "quick",
+h("c09_rule_mid_chunk_rollsum", ["C09"], "thorough",
   "7 symbolic bytes + 3 symbolic previous bytes; scan offset o any 0..len (o=0: chunk after a boundary; o>0: after refills); config symbolic as above",
-  "one next() from ANY mid-chunk state (offset o, hasher holding the last w bytes fed) == the rule evaluated on the whole buffer => refill independence and the rule for every chunk after the first",
+  "one next() from ANY mid-chunk state (offset o, hasher holding the last w bytes fed) == the rule evaluated on the whole buffer, and it ENDS in such a state again (post-state check) => refill independence and the rule for every chunk after the first, by induction",
   RHC + RS)
-QUICK_GRID = [(1, 0, 2), (2, 1, 4), (2, 2, 5), (3, 3, 6), (3, 5, 6), (3, 6, 6)]
+QUICK_GRID = [(1, 0, 2), (2, 1, 4), (2, 3, 5), (3, 5, 6)]
 for w in (1, 2, 3):
     for mx in range(w, 7):
         for mn in range(0, mx + 1):
@@ -144,7 +150,7 @@ prop("C07",
 h("c07_adjacent_reads_spec", ["C07"], "quick", "n 1..4 chunks; offsets any u64 <= MAX-2^33, sizes any <= u32::MAX", "adjacent_reads == length of the maximal adjacent run (reference written independently)", ["ChunkReader::adjacent_reads"])
 h("c07_new_request_step", ["C07", "C17"], "quick", "4 chunks, offsets < 40, sizes 1..3, any order/gaps: symbolic; position idx symbolic; retry settings symbolic; stale buffer bytes",
   "from the between-runs state one poll creates exactly one range request whose (offset,size) span first byte of first .. last byte of last chunk of the maximal adjacent run, sets the run counter, clears stale bytes",
-  CR, [STUB_REQWEST, STUB_INNER])
+  CR, [STUB_REQWEST, STUB_INNER], heavy=True)
 h("c07_serve_chunk_step", ["C07", "C08"], "quick", "3 chunks symbolic; position, run counter r>=1, buffered bytes (>= next chunk, <= 6) symbolic",
   "a buffered chunk is served as exactly its `size` bytes in order, without a request; index+1, counter-1, request dropped iff the run is finished; the rest of the buffer is the following bytes",
   CR, [STUB_REQWEST])
